@@ -7,6 +7,7 @@ import (
 	"pgregory.net/rapid"
 
 	"verif/harness/memnet"
+	"verif/harness/pbt"
 )
 
 // A Scenario is one generated case (DESIGN Appendix C). Plain JSON-serialisable.
@@ -27,7 +28,66 @@ type Scenario struct {
 	TempErrs  []string      // kinds (tempNotTimeout | tempTimeout) queued before the server starts
 	TempErrAt string        // one more tempNotTimeout error is injected when this event is logged ("" = none)
 	Waits     []memnet.Wait // interposition plan
+	// the second life cycle on the same Server value (misuse restartAfterShutdown); the zero value is
+	// the simplest one: after run 1 is completely over, one fast exchange, Shutdown
+	Restart Restart
 }
+
+// Restart describes the second run of the same Server value. Its clients are numbered 9, 10, ...
+// (one connection and one request each), its events are shutdown2.call / shutdown2.return(...) /
+// serve2.return(...) / release2; everything else (handler.*, client(j).*, lis.*, pc.*) keeps its name.
+type Restart struct {
+	// complete (""): run 1 is over - Shutdown has returned (nil or, when its context expired, the
+	// context's error), the held handlers were released, the serve call has returned, nothing leaked.
+	// drain: the second start follows at once on a Shutdown that gave up on its context, while the
+	// handlers of run 1 are still held (they are released at Release1)
+	When string
+	Reqs []string // handler mode per request of run 2: fast | block (reply, wait for release2) | late (wait, reply); empty = one fast request
+	// when Shutdown of run 2 is called: entered ("": every request of run 2 has reached its handler,
+	// the fast ones are answered) | sent (the requests are on their way) | started (right after the start notification)
+	At     string
+	CtxAPI bool // ShutdownContext(context.Background()) instead of Shutdown()
+	HoldMs int  // how long the controller gives Shutdown 2 to return (it must not, while a handler of run 2 is held) before release2
+	// drain: when the held handlers of run 1 are released: started2 (run 2 has just started) |
+	// entered2 (run 2's handlers are running, before Shutdown 2) | held2 (Shutdown 2 has been called
+	// and is waiting for run 2's handlers) | after2 (run 2 is over)
+	Release1 string
+}
+
+func (s Scenario) hasRestart() bool {
+	for _, m := range s.Misuse {
+		if m.Op == "restartAfterShutdown" {
+			return true
+		}
+	}
+	return false
+}
+
+// drain reports whether the second start is to happen while run 1 is still draining. It needs a
+// context that expires without the controller's release and no other Shutdown caller.
+func (s Scenario) drain() bool {
+	if !s.hasRestart() || s.Restart.When != "drain" {
+		return false
+	}
+	for _, m := range s.Misuse {
+		if m.Op == "secondShutdown" {
+			return false
+		}
+	}
+	return s.Ctx == "expired" || (s.Ctx == "expireAt" && s.CtxAt != "release")
+}
+
+// restartReqs returns the handler modes of the second run's requests.
+func (s Scenario) restartReqs() []string {
+	if len(s.Restart.Reqs) == 0 {
+		return []string{"fast"}
+	}
+	return s.Restart.Reqs
+}
+
+// knownRestartDrain: see KNOWN_FINDINGS.txt. While it is live the generator turns a drawn
+// "restart during drain" into a restart after run 1 is over.
+const knownRestartDrain = "restart-during-drain"
 
 type Client struct {
 	Reqs     []Req
@@ -146,11 +206,94 @@ var failedStartKinds = []string{"closedUDP", "closedUDP", "closedListener", "clo
 
 var transportsMem = []string{"memTCP", "memTCP", "memTCP", "memTLS", "memPacket", "memPacket", "memPacket"}
 var transportsReal = []string{"realUDP", "realTCP"}
+var transportsAll = []string{"memTCP", "memTCP", "memTLS", "memPacket", "memPacket", "memPacket", "realUDP", "realUDP", "realTCP"}
 
 func genMem(t *rapid.T) Scenario  { return genScenario(t, transportsMem) }
 func genReal(t *rapid.T) Scenario { return genScenario(t, transportsReal) }
 
+// genScenario draws a scenario; when it contains a restart, the second run is drawn last (so that
+// the draws of everything else do not depend on it).
 func genScenario(t *rapid.T, transports []string) Scenario {
+	s := genCore(t, transports)
+	if s.hasRestart() {
+		drawRestart(t, &s)
+	}
+	return s
+}
+
+// genRestart (sub scenario-restart): every case restarts the same Server value, and in 70 % of the
+// cases the first run ends the way that leaves most state behind: a handler is held when Shutdown
+// is called and the context of ShutdownContext expires before the handler is released.
+func genRestart(t *rapid.T) Scenario {
+	s := genCore(t, transportsAll)
+	if !s.hasRestart() {
+		s.Misuse = append(s.Misuse, Misuse{Op: "restartAfterShutdown"})
+	}
+	if rapid.IntRange(0, 9).Draw(t, "giveUp") < 7 {
+		if len(s.Clients) == 0 {
+			s.Clients = append(s.Clients, Client{Close: "end"})
+		}
+		c := &s.Clients[0]
+		c.StartAt = ""
+		if len(c.Reqs) == 0 {
+			c.Reqs = append(c.Reqs, Req{})
+		}
+		c.Reqs[0] = Req{Mode: rapid.SampledFrom([]string{"block", "late"}).Draw(t, "heldMode"), Until: "release"}
+		if rapid.IntRange(0, 3).Draw(t, "keepTrigger") > 0 {
+			s.Trigger = "handler.enter(1,1)"
+		}
+		s.CtxAPI = false
+		s.Ctx = rapid.SampledFrom([]string{"expired", "expireAt", "expireAt"}).Draw(t, "ctxGiveUp")
+		if s.Ctx == "expireAt" {
+			s.CtxAt = "shutdown.call"
+			if s.spied() && rapid.Bool().Draw(t, "ctxAtIO") {
+				if s.stream() {
+					s.CtxAt = "lis.close"
+				} else {
+					s.CtxAt = "pc.setReadDeadline(past)"
+				}
+			}
+		}
+	}
+	drawRestart(t, &s)
+	return s
+}
+
+// drawRestart draws the second run and, for a restart during drain, removes from the first run
+// what cannot be combined with it (see Scenario.drain).
+func drawRestart(t *rapid.T, s *Scenario) {
+	var rs Restart
+	rs.When = rapid.SampledFrom([]string{"complete", "drain"}).Draw(t, "restartWhen")
+	if rs.When == "drain" && pbt.Known(knownRestartDrain) {
+		pbt.Excluded(knownRestartDrain)
+		rs.When = "complete"
+	}
+	for i, n := 0, rapid.SampledFrom([]int{1, 1, 2, 3}).Draw(t, "restartReqs"); i < n; i++ {
+		rs.Reqs = append(rs.Reqs, rapid.SampledFrom([]string{"fast", "block", "late", "late"}).Draw(t, "restartMode"))
+	}
+	rs.At = rapid.SampledFrom([]string{"entered", "entered", "entered", "sent", "started"}).Draw(t, "restartAt")
+	rs.CtxAPI = rapid.Bool().Draw(t, "restartCtxAPI")
+	rs.HoldMs = rapid.SampledFrom([]int{2, 5, 10, 20}).Draw(t, "restartHold")
+	if rs.When == "drain" {
+		rs.Release1 = rapid.SampledFrom([]string{"started2", "entered2", "held2", "held2", "after2"}).Draw(t, "release1")
+		if s.Ctx == "background" {
+			s.Ctx, s.CtxAPI = "expired", false
+		}
+		if s.Ctx == "expireAt" && s.CtxAt == "release" {
+			s.CtxAt = "shutdown.call"
+		}
+		var ms []Misuse
+		for _, m := range s.Misuse {
+			if m.Op != "secondShutdown" {
+				ms = append(ms, m)
+			}
+		}
+		s.Misuse = ms
+	}
+	s.Restart = rs
+}
+
+func genCore(t *rapid.T, transports []string) Scenario {
 	var s Scenario
 	s.Transport = rapid.SampledFrom(transports).Draw(t, "transport")
 	s.MaxTCP = rapid.SampledFrom([]int{-1, -1, -1, 0, 0, 1, 2, 128}).Draw(t, "maxTCP")
